@@ -520,7 +520,9 @@ def execCore (cfg : Cfg) : Nat → Nat → RSt → R (Sig × RSt)
       let (x, ins) := explicitInput σ.inputs
       .ok (.normal, { σ with inputs := ins, stack := x :: σ.stack })
     else if c = 110 then    -- `n` context value
-      .ok (.normal, σ.push (σ.ctxVals.headD (.int 0)))
+      (match σ.ctxVals with
+       | x :: _ => .ok (.normal, σ.push x)
+       | [] => .error (.raised "IndexError"))
     else if c = 163 then    -- `£` set register
       let (x, σ1) := σ.pop1; .ok (.normal, { σ1 with register := x })
     else if c = 165 then    -- `¥` get register
@@ -541,6 +543,7 @@ def execCore (cfg : Cfg) : Nat → Nat → RSt → R (Sig × RSt)
       (match xs with | [b, a] => .ok (.normal, σ1.push (.list [a, b])) | _ => .error (.stuck "pop"))
     else if c = 100 then    -- `d` double
       let (x, σ1) := σ.pop1
+      if isFnVal x then .error (.unmodelled "function value given to multiply") else
       do let r ← elemFn "multiply" [x, .int 2]; .ok (.normal, σ1.push r)
     else if c = 172 then    -- `¬` logical not
       let (x, σ1) := σ.pop1; .ok (.normal, σ1.push (.int (b2i (!truthy x))))
